@@ -380,6 +380,16 @@ def gen_case(rng):
                     cons.append(['fix', g, rng.randrange(g), None, rng.choice(OPS16)])
                 else:
                     cons.append(['forbid', rng.randrange(g), g])
+    # a pinned gate type chosen freely (also one that contradicts need_normalized or the basis): the request may
+    # become unsatisfiable, so the planted circuit is dropped and existence is left to the brute-force oracle
+    if r >= 1 and n >= 2 and rng.random() < 0.25:
+        g = rng.randrange(max(n, 2), n + r) if n + r > max(n, 2) else n
+        if g >= 2:
+            a, b = sorted(rng.sample(range(g), 2))
+            t = rng.choice(OPS16)
+            cons.append(['fix', g, a, b if rng.random() < 0.6 else None, t])
+            case['planted'] = None
+            case['free_type'] = True
     case['constraints'] = cons
     return case
 
